@@ -116,6 +116,8 @@ SITES = [
          facts=[("ec.require_on_curve(base)", "p1_on_curve")], via=("Libsecp256k1PubkeyTweakChain",)),
     Site("tweak_chain_point", curve, "_TweakChain.point", atoms={"self._chain is not None": "chain_held"},
          facts=[("t %= self.ec.n", "s1_reduced")], via=("self._chain.tweak_add",)),
+    # Jacobian front of double_mult_var for the two verifications: asks the predicate itself, the "call" is double_mult_var
+    Site("jac_double_mult", curve, "_jac_double_mult", via=("double_mult_var",)),
     Site("multi_mult", curve, "multi_mult_var",
          atoms={"len(points) > 1": "n_terms_gt_1",
                 "all((m and Q[1] for m, Q in zip(ints, points, strict=True)))": "all_terms_nonzero_finite"},
@@ -270,7 +272,9 @@ class Found:
     def __init__(self, callee, conds, catches, lineno):
         self.callee = callee
         self.conds = conds
-        self.catches = catches
+        self.catches = bool(catches)
+        # what each enclosing ValueError handler DOES with the bindings' refusal, innermost last (see `_handler_action`)
+        self.handlers = tuple(catches) if catches else ()
         self.lineno = lineno
 
 
@@ -282,6 +286,52 @@ def _catches_value_error(handlers):
         if any(nm in ("ValueError", "Exception", "BTClibValueError") for nm in names):
             return True
     return False
+
+
+_EXC_CLASS = {"BTClibValueError": "raisesValue", "BTClibRuntimeError": "raisesRuntime", "BTClibTypeError": "raisesType"}
+
+
+def _raised_class(module, exc):
+    """`raise X(...)` / `raise helper(...)`: the btclib class raised, as a HandlerAction name"""
+    if isinstance(exc, ast.Call):
+        nm = ast.unparse(exc.func)
+        if nm in _EXC_CLASS:
+            return _EXC_CLASS[nm]
+        if nm.isidentifier():  # a helper that builds the exception: read its `return X(...)` statements
+            try:
+                fn, _ = _find_def(module, nm)
+            except Untranslatable:
+                return None
+            got = {_raised_class(module, r.value) for r in ast.walk(fn) if isinstance(r, ast.Return) and r.value is not None}
+            if len(got) == 1:
+                return got.pop()
+    return None
+
+
+def _handler_action(module, handler_body):
+    """what an `except ValueError` body does with the bindings' refusal:
+    raises<Class>      every path ends in `raise BTClib…Error(...)` of ONE class
+    returnsFalse       `return False`
+    pythonThenReraise  runs the Python arm's own validation (which raises first), then a bare `raise`
+    fallThrough        neither raises nor returns: execution continues on the Python arm"""
+    raises = [n for st in handler_body for n in ast.walk(st) if isinstance(n, ast.Raise)]
+    returns = [n for st in handler_body for n in ast.walk(st) if isinstance(n, ast.Return)]
+    if raises and not returns:
+        if all(r.exc is None for r in raises):
+            if len(handler_body) > 1:
+                return "pythonThenReraise"
+            raise Untranslatable("a handler that only re-raises the bindings' ValueError")
+        classes = {_raised_class(module, r.exc) for r in raises}
+        if len(classes) == 1 and None not in classes and _exits(handler_body):
+            return classes.pop()
+        raise Untranslatable(f"handler raises {sorted(map(str, classes))}: not one btclib class on every path")
+    if returns and not raises:
+        if all(isinstance(r.value, ast.Constant) and r.value.value is False for r in returns) and _exits(handler_body):
+            return "returnsFalse"
+        raise Untranslatable("handler returns something other than False")
+    if not raises and not returns:
+        return "fallThrough"
+    raise Untranslatable("handler both raises and returns")
 
 
 def _suppresses_value_error(with_node):
@@ -348,14 +398,21 @@ class Extractor:
                 elif st.orelse and _exits(st.orelse):
                     conds = conds + [st.test]
             elif isinstance(st, ast.Try):
-                c = catches or _catches_value_error(st.handlers)
+                c = catches
+                if _catches_value_error(st.handlers):
+                    hb = [h for h in st.handlers if _catches_value_error([h])][0].body
+                    try:
+                        act = _handler_action(self.site.module, hb)
+                    except Untranslatable as e:
+                        raise Untranslatable(f"{self.site.module.__name__}.{self.site.qualname} line {st.lineno}: {e}") from e
+                    c = tuple(catches or ()) + (act,)
                 self.walk(st.body, conds, c)
                 for h in st.handlers:
                     self.walk(h.body, conds, catches)
                 self.walk(st.orelse, conds, catches)
                 self.walk(st.finalbody, conds, catches)
             elif isinstance(st, ast.With):
-                c = catches or _suppresses_value_error(st)
+                c = (tuple(catches or ()) + ("fallThrough",)) if _suppresses_value_error(st) else catches
                 for it in st.items:
                     self.scan(it.context_expr, conds, catches)
                 self.walk(st.body, conds, c)
@@ -374,7 +431,7 @@ class Extractor:
         body = list(self.fn.body)
         if body and isinstance(body[0], ast.Expr) and isinstance(body[0].value, ast.Constant):
             body = body[1:]
-        self.walk(body, [], False)
+        self.walk(body, [], ())
         if not self.found:
             raise Untranslatable(f"{self.site.module.__name__}.{self.site.qualname}: no call into btclib._libsecp256k1 "
                                  f"found (aliases {sorted(self.aliases)}, delegates {self.site.via})")
@@ -438,9 +495,15 @@ def _ident(s):
 
 
 def _delegate_catches(module, name, depth=0):
-    """does the private delegate `name` (a module-level function) wrap its own bindings call in a ValueError handler?"""
+    return bool(_delegate_handlers(module, name, depth))
+
+
+def _delegate_handlers(module, name, depth=0):
+    """the handler actions the private delegate `name` (a module-level function) wraps its own bindings calls in
+    (a call of the delegate that stands in NO handler contributes nothing: the list is what exists, `catches` is
+    'at least one')"""
     if depth > 3 or not name.isidentifier():
-        return False
+        return ()
     try:
         obj = getattr(module, name, None)
         module = inspect.getmodule(obj) if obj is not None else module
@@ -453,11 +516,16 @@ def _delegate_catches(module, name, depth=0):
         ex.site.via = tuple(inner)
         found = ex.run()
     except Untranslatable:
-        return False
+        return ()
+    acts = []
     for f in found:
-        if f.catches or (f.callee in ex.site.via and _delegate_catches(module, f.callee, depth + 1)):
-            return True
-    return False
+        for a in f.handlers + (_delegate_handlers(module, f.callee, depth + 1) if f.callee in ex.site.via else ()):
+            if a not in acts:
+                acts.append(a)
+    return tuple(acts)
+
+
+HANDLERS: dict = {}   # guard name -> handler actions (filled by site_records)
 
 
 def site_records(site):
@@ -488,7 +556,9 @@ def site_records(site):
             nm = f"{nm}_{names[nm]}"
         refs = set()
         terms = [cond_to_lean(site, c, refs) for c in f.conds]
-        catches = f.catches or (f.callee in site.via and _delegate_catches(site.module, f.callee))
+        inner = _delegate_handlers(site.module, f.callee) if f.callee in site.via else ()
+        catches = f.catches or bool(inner)
+        HANDLERS[nm] = tuple(f.handlers) + tuple(a for a in inner if a not in f.handlers)
         recs.append((nm, " && ".join(terms) if terms else "true", catches, " && ".join(est) if est else "true",
                      f.callee, f.lineno))
     if site.expect is not None:
@@ -516,7 +586,8 @@ MODULES = [curve, sec_point, dsa, ssa, bms, dh, commit_nonce, ellswift, musig2, 
 INSIDE = {
     "btclib.curves.curve": {"_libsecp256k1_multi_mult_", "_libsecp256k1_multi_mult"},
     # `Signer.wipe` only overwrites the buffer the constructor allocated: no arithmetic crosses
-    "btclib.ecc.dsa": {"_libsecp256k1_sign_", "_delegated_sign_", "_libsecp256k1_recover_sec_", "Signer.wipe"},
+    "btclib.ecc.dsa": {"_libsecp256k1_sign_", "_delegated_sign_", "_libsecp256k1_recover_sec_", "_libsecp256k1_recover_point_",
+                       "Signer.wipe"},
     "btclib.ecc.ssa": {"Signer.wipe"},
     "btclib.ecc.musig2": {"_bindings_session"},
     "btclib.silent_payments": {"_delegated_output_keys"},
@@ -546,6 +617,99 @@ def unlisted_sites():
                         missing.append(f"{m.__name__}.{q}")
         visit(tree.body, "")
     return missing
+
+
+# ------------------------------------------------------------------ the whole-package inventory
+# every function of EVERY module of the installed btclib package whose body consults the dispatch: reads the predicate /
+# the flag / the public getter, names something imported from `btclib._libsecp256k1`, calls one of the private delegates
+# (the INSIDE functions, under whatever name a module imports them), or reads an attribute that a listed constructor
+# fills with a bindings object (`self._chain`, `self._signer`, `self._prvkey_buffer`).  Each must be a listed site, a
+# listed inside-of-a-delegation, or the dispatch core itself; anything else is a delegation nobody modelled: BROKEN.
+DISPATCH_NAMES = ("_libsecp256k1_serves", "is_libsecp256k1_serving", "_libsecp256k1_available")
+CORE = ["btclib.curves.curve._libsecp256k1_serves", "btclib.curves.curve.is_libsecp256k1_serving",
+        "btclib.curves.curve.set_libsecp256k1_serving"]
+# methods that read a held attribute without any arithmetic crossing (nothing to compare between the arms)
+HELD_READERS_ONLY: dict = {}
+
+
+def _package_files():
+    import os  # noqa: PLC0415
+
+    import btclib  # noqa: PLC0415
+    root = os.path.dirname(btclib.__file__)
+    for dp, _dn, fns in sorted(os.walk(root)):
+        for f in sorted(fns):
+            if f.endswith(".py"):
+                path = os.path.join(dp, f)
+                mod = "btclib" + path[len(root):-3].replace(os.sep, ".")
+                yield (mod[:-9] if mod.endswith(".__init__") else mod), path
+
+
+def consulting_functions():
+    """{`module.qualname`: [reasons]} over the whole package"""
+    delegates = {q for qs in INSIDE.values() for q in qs if "." not in q}
+    out = {}
+    for mod, path in _package_files():
+        if mod == "btclib._libsecp256k1":
+            continue
+        with open(path, encoding="utf8") as fh:
+            tree = ast.parse(fh.read())
+        aliases = _binding_aliases(tree)
+        for n in ast.walk(tree):  # the bindings reached some other way: not through the one import seam
+            if isinstance(n, ast.ImportFrom) and n.module and n.module.split(".")[0] == "btclib_secp256k1":
+                guarded = any(isinstance(i, ast.If) and ast.unparse(i.test) == "TYPE_CHECKING" and n in ast.walk(i) for i in tree.body)
+                if not guarded:
+                    out[f"{mod}.<import {n.module}>"] = ["imports btclib_secp256k1 directly"]
+            if isinstance(n, ast.Import) and any(a.name.split(".")[0] == "btclib_secp256k1" for a in n.names):
+                out[f"{mod}.<import>"] = ["imports btclib_secp256k1 directly"]
+        local_delegates = set(delegates) if mod in INSIDE else set()
+        for n in ast.walk(tree):
+            if isinstance(n, ast.ImportFrom) and n.module and n.module.startswith("btclib"):
+                for a in n.names:
+                    if a.name in delegates:
+                        local_delegates.add(a.asname or a.name)
+
+        def visit(body, prefix, held, mod=mod, aliases=aliases, local_delegates=local_delegates):
+            for n in body:
+                if isinstance(n, ast.ClassDef):
+                    h = set()
+                    for m in n.body:  # attributes a method fills with something of the bindings
+                        if isinstance(m, ast.FunctionDef):
+                            for a in ast.walk(m):
+                                if isinstance(a, (ast.Assign, ast.AnnAssign)) and a.value is not None:
+                                    uses = {x.id for x in ast.walk(a.value) if isinstance(x, ast.Name)} & aliases
+                                    tg = a.targets if isinstance(a, ast.Assign) else [a.target]
+                                    if uses:
+                                        h |= {t.attr for t in tg if isinstance(t, ast.Attribute) and ast.unparse(t.value) == "self"}
+                    visit(n.body, prefix + n.name + ".", h)
+                elif isinstance(n, (ast.FunctionDef, ast.AsyncFunctionDef)):
+                    names = {x.id for x in ast.walk(n) if isinstance(x, ast.Name)}
+                    attrs = {x.attr for x in ast.walk(n) if isinstance(x, ast.Attribute) and ast.unparse(x.value) == "self"}
+                    why = sorted((names & set(DISPATCH_NAMES)) | (names & aliases) | (names & local_delegates)
+                                 | {"self." + a for a in attrs & held})
+                    if why:
+                        out[f"{mod}.{prefix}{n.name}"] = why
+        visit(tree.body, "", set())
+    return out
+
+
+def inventory():
+    """(consulting, unmodelled): every consulting function with its status, and those that are none of
+    site / inside / core / held-reader"""
+    cons = consulting_functions()
+    listed = {f"{s.module.__name__}.{s.qualname}" for s in SITES}
+    inside = {f"{m}.{q}" for m, qs in INSIDE.items() for q in qs}
+    readers = {f"{m}.{q}" for m, qs in HELD_READERS_ONLY.items() for q in qs}
+    rows, bad = [], []
+    for f in sorted(cons):
+        st = "site" if f in listed else "inside" if f in inside else "core" if f in CORE else "reader" if f in readers else "UNMODELLED"
+        rows.append((f, st, cons[f]))
+        if st == "UNMODELLED":
+            bad.append(f"{f} ({', '.join(cons[f])})")
+    # the converse: a listed site / inside function that no longer consults anything is a stale entry
+    for f in sorted((listed | inside) - set(cons)):
+        bad.append(f"{f} is listed but no longer consults the dispatch")
+    return rows, bad
 
 
 # ------------------------------------------------------------------ set_libsecp256k1_serving (T3)
@@ -593,6 +757,9 @@ def guards_text():
     missing = unlisted_sites()
     if missing:
         errs.append("functions calling into btclib._libsecp256k1 that are not listed as delegation sites: " + ", ".join(missing))
+    inv_rows, inv_bad = inventory()
+    if inv_bad:
+        errs.append("dispatch-consulting functions of the package that are not modelled (or stale entries): " + "; ".join(inv_bad))
     if errs:
         raise Untranslatable(" ;; ".join(errs))
     t = ""
@@ -617,6 +784,15 @@ def guards_text():
     t += "def SiteId.guard : SiteId → Atoms → Bool\n" + "".join(f"  | .{nm} => _root_.Gen.BackendSites.{nm}\n" for nm, _b, _c in rows) + "\n"
     t += "def SiteId.established : SiteId → Atoms → Bool\n" + "".join(f"  | .{nm} => _root_.Gen.BackendSites.{nm}.established\n" for nm, _b, _c in rows) + "\n"
     t += "def SiteId.catches : SiteId → Bool\n" + "".join(f"  | .{nm} => _root_.Gen.BackendSites.{nm}.catches\n" for nm, _b, _c in rows) + "\n"
+    t += "/-- what an enclosing `ValueError` handler does with the bindings' refusal (tools/specs/backend.py `_handler_action`) -/\n"
+    t += ("inductive HandlerAction where\n  | fallThrough | raisesValue | raisesRuntime | raisesType | returnsFalse | pythonThenReraise\n"
+          "  deriving DecidableEq, Repr\n\n")
+    t += "/-- the handlers between the call and the caller of the site, read off the AST (the site's own, then its delegate's) -/\n"
+    t += "def SiteId.handlers : SiteId → List HandlerAction\n" + "".join(
+        f"  | .{nm} => [" + ", ".join("." + a for a in HANDLERS.get(nm, ())) + "]\n" for nm, _b, _c in rows) + "\n"
+    t += ("/-- every function of the installed package whose body consults the dispatch (predicate, flag, a name of\n"
+          "`btclib._libsecp256k1`, a private delegate, an attribute holding a bindings object), with how it is modelled -/\n")
+    t += "def consulting : List (String × String) := [\n" + ",\n".join(f'  ("{f}", "{st}")' for f, st, _w in inv_rows) + "]\n\n"
     # sites whose dispatch reads the caller's curve (the predicate is asked with `ec` / `sig.ec`, not the literal secp256k1)
     guards = {nm: g for _s, (nm, g, _c, _e, _cal, _l) in order}
 
